@@ -11,7 +11,8 @@ COQ_FILES = ["Tie/C17_defs.v", "Tie/C17_tie.v", "Props/C17_props.v"]
 PROPS_FILES = ["C17_props.v"]
 TRUSTED_BASE = [
     "py2gallina unit 'shapes': the padding arithmetic of NormUnetModel2d/3d.pad and unpad, pad_to_pow_of_2 and the crop of UnetModel3d.forward, the padding-index maps of UnetModel2d/3d.forward, MWCNN.pad and DUB.pad, and crop_to_shape are regenerated as Gallina over Z on every run; everything else in those methods must match a fixed statement pattern or the translation fails closed",
-    "coq/Model/C17.v (hand model): the layer sequences of UnetModel2d/3d, NormUnetModel2d/3d, MWCNN, DUB and DIDN as shape programs; tied to the modules by the shape-trace correspondence (forward hooks on every convolution / transposed convolution / DWT / IWT / PixelShuffle of the real modules), not by translation",
+    "the layer sequence of UnetModel2d / UnetModel3d is regenerated from the constructor (module lists with multiplicities 1 and num_pool_layers - 1, Conv / ConvTranspose hyperparameters) and the two loops of forward, and proved equal to the modelled program for every depth",
+    "coq/Model/C17.v (hand model): the layer sequences of MWCNN, DUB and DIDN as shape programs; tied to the modules by the shape-trace correspondence (forward hooks on every convolution / transposed convolution / DWT / IWT / PixelShuffle of the real modules), not by translation",
     "torch layer shape formulas (Conv, ConvTranspose, AvgPool, PixelShuffle, F.pad reflect needs pad < size, Python slicing): oracle contract, validated by the same correspondence",
     "the unrolled reconstruction models and 'finite values' are exercised end to end (enumeration over sizes), not proved",
 ]
@@ -162,6 +163,142 @@ def _crop(fn, path, what):
     return "if %s then slice_len c 0 r else c" % seen[0]
 
 
+
+# ------------------------------------------------------------------ U-Net layer sequence (constructor + forward) -> program
+SHAPE_NEUTRAL = ("nn.InstanceNorm2d", "nn.InstanceNorm3d", "nn.LeakyReLU", "nn.ReLU", "nn.PReLU", "nn.Dropout2d", "nn.Dropout3d", "nn.BatchNorm2d", "nn.BatchNorm3d")
+
+
+def _int_arg(call, name, pos, default, path):
+    v = None
+    for k in call.keywords:
+        if k.arg == name:
+            v = k.value
+    if v is None and pos is not None and len(call.args) > pos:
+        v = call.args[pos]
+    if v is None:
+        return default
+    try:
+        x = ast.literal_eval(v)
+    except Exception:
+        _fail("layer argument %s is not a literal: %s" % (name, ast.unparse(v)), call, path)
+    if isinstance(x, (tuple, list)):
+        if len(set(x)) != 1:
+            _fail("layer argument %s differs between axes" % name, call, path)
+        x = x[0]
+    if not isinstance(x, int):
+        _fail("layer argument %s is not an integer" % name, call, path)
+    return x
+
+
+def _layer_ops(call, classes, path):
+    """Shape ops of one constructor call (a torch layer, a block class of the same file, or nn.Sequential of those)."""
+    fn = ast.unparse(call.func)
+    if fn in ("nn.Conv2d", "nn.Conv3d"):
+        return ["OConv %d %d %d %d" % (_int_arg(call, "kernel_size", 2, None, path), _int_arg(call, "stride", 3, 1, path), _int_arg(call, "padding", 4, 0, path), _int_arg(call, "dilation", 5, 1, path))]
+    if fn in ("nn.ConvTranspose2d", "nn.ConvTranspose3d"):
+        if _int_arg(call, "padding", 4, 0, path) != 0 or _int_arg(call, "output_padding", 5, 0, path) != 0:
+            _fail("transposed convolution with padding", call, path)
+        return ["OConvT %d %d" % (_int_arg(call, "kernel_size", 2, None, path), _int_arg(call, "stride", 3, 1, path))]
+    if fn in SHAPE_NEUTRAL:
+        return []
+    if fn == "nn.Sequential":
+        out = []
+        for a in call.args:
+            if not isinstance(a, ast.Call):
+                _fail("nn.Sequential argument outside subset", a, path)
+            out += _layer_ops(a, classes, path)
+        return out
+    if fn in classes:
+        return classes[fn]
+    _fail("layer constructor %s outside subset" % fn, call, path)
+
+
+def _block_class(tree, name, path):
+    """A block whose forward is `return self.layers(x)`."""
+    init = pg.find_def(tree, name + ".__init__", path)
+    fw = pg.find_def(tree, name + ".forward", path)
+    body = pg.strip_doc(fw.body)
+    if len(body) != 1 or ast.unparse(body[0]) != "return self.layers(input_data)":
+        _fail("%s.forward is not `return self.layers(input_data)`" % name, fw, path)
+    seqs = [s for s in ast.walk(init) if isinstance(s, ast.Assign) and ast.unparse(s.targets[0]) == "self.layers"]
+    if len(seqs) != 1:
+        _fail("%s.__init__: self.layers not found" % name, init, path)
+    return _layer_ops(seqs[0].value, {}, path)
+
+
+def _unet_program(tree, cls, blocks, pool_call, cat_idx_name, path, prologue=None):
+    """gen program of UnetModel2d / UnetModel3d as a Coq term in L (num_pool_layers): the module lists built by the
+    constructor (segments with multiplicities 1 and L - 1) walked in the order of the two loops of forward."""
+    classes = {b: _block_class(tree, b, path) for b in blocks}
+    init = pg.find_def(tree, cls + ".__init__", path)
+    lists = {}
+    single = {}
+
+    def add(lst, count, call):
+        lists.setdefault(lst, []).append((count, _layer_ops(call, classes, path)))
+
+    for st in pg.strip_doc(init.body):
+        u = ast.unparse(st)
+        if isinstance(st, ast.Assign):
+            t = ast.unparse(st.targets[0])
+            if t in ("self.down_sample_layers", "self.up_conv", "self.up_transpose_conv") and isinstance(st.value, ast.Call) and ast.unparse(st.value.func) == "nn.ModuleList":
+                lists.setdefault(t, [])
+                if st.value.args:
+                    for el in st.value.args[0].elts:
+                        add(t, "1", el)
+            elif t == "self.conv":
+                single["self.conv"] = _layer_ops(st.value, classes, path)
+            elif t in ("ch",) or t.startswith("self.") and not isinstance(st.value, ast.Call):
+                continue
+            elif t.startswith("self."):
+                _fail("%s.__init__: module assignment outside subset: %s" % (cls, u[:60]), st, path)
+        elif isinstance(st, ast.AugAssign):
+            t = ast.unparse(st.target)
+            if t in ("self.down_sample_layers", "self.up_conv", "self.up_transpose_conv"):
+                for el in st.value.elts:
+                    add(t, "1", el)
+            elif t != "ch":
+                _fail("%s.__init__: augmented assignment outside subset" % cls, st, path)
+        elif isinstance(st, ast.For):
+            if ast.unparse(st.iter) != "range(num_pool_layers - 1)":
+                _fail("%s.__init__: loop is not over range(num_pool_layers - 1)" % cls, st, path)
+            for b in st.body:
+                if isinstance(b, ast.AugAssign) and ast.unparse(b.target) in ("self.down_sample_layers", "self.up_conv", "self.up_transpose_conv"):
+                    for el in b.value.elts:
+                        add(ast.unparse(b.target), "(L - 1)", el)
+                elif not (isinstance(b, ast.AugAssign) and ast.unparse(b.target) == "ch"):
+                    _fail("%s.__init__: loop body outside subset" % cls, b, path)
+        elif isinstance(st, ast.Expr) and ast.unparse(st).startswith("super().__init__"):
+            continue
+        else:
+            _fail("%s.__init__: statement outside subset: %s" % (cls, u[:60]), st, path)
+    for k in ("self.down_sample_layers", "self.up_conv", "self.up_transpose_conv"):
+        if k not in lists:
+            _fail("%s.__init__: %s not built" % (cls, k), init, path)
+    if "self.conv" not in single:
+        _fail("%s.__init__: self.conv not built" % cls, init, path)
+    ups_t, ups_c = lists["self.up_transpose_conv"], lists["self.up_conv"]
+    if [c for c, _ in ups_t] != [c for c, _ in ups_c]:
+        _fail("%s: up_transpose_conv and up_conv are not built in step" % cls, init, path)
+    # forward: the two loops in their fixed form
+    fw = pg.find_def(tree, cls + ".forward", path)
+    src = ast.unparse(fw)
+    needles = ["for _, layer in enumerate(self.down_sample_layers):\n    output = layer(output)\n    stack.append(output)\n    output = %s" % pool_call,
+               "output = self.conv(output)", "for transpose_conv, conv in zip(self.up_transpose_conv, self.up_conv):\n    downsample_layer = stack.pop()\n    output = transpose_conv(output)",
+               "output = torch.cat([output, downsample_layer], dim=1)\n    output = conv(output)", "return output"]
+    flat = "\n".join(l[4:] if l.startswith("    ") else l for l in src.split("\n")[1:])
+    pos = 0
+    for n in needles:
+        i = flat.find(n, pos)
+        if i < 0:
+            _fail("%s.forward: expected `%s` (in this order)" % (cls, n.split("\n")[0]), fw, path)
+        pos = i + len(n)
+    down = " ++ ".join("rep %s ([%s] ++ [OPush; OPool 2 2])" % (c, "; ".join(ops)) for c, ops in lists["self.down_sample_layers"])
+    mid = "[%s]" % "; ".join(single["self.conv"])
+    up = " ++ ".join("rep %s ([%s] ++ [OPopPadCat %s] ++ [%s])" % (ct, "; ".join(ot), cat_idx_name, "; ".join(oc)) for (ct, ot), (_, oc) in zip(ups_t, ups_c))
+    return "%s ++ %s ++ %s" % (down, mid, up)
+
+
 def generate(ctx):
     out = "From DV Require Import Model.C17.\n"
     p2 = ctx.src(UNET2D)
@@ -174,6 +311,7 @@ def generate(ctx):
     src = ast.unparse(pg.find_def(t2, "UnetModel2d.forward", p2))
     if "F.avg_pool2d(output, kernel_size=2, stride=2, padding=0)" not in src:
         _fail("UnetModel2d.forward: pooling is not avg_pool2d(2, 2, 0)", None, p2)
+    out += "Definition gen_unet2d_layers (L : nat) : list sop :=\n  %s.\n" % _unet_program(t2, "UnetModel2d", ["ConvBlock", "TransposeConvBlock"], "F.avg_pool2d(output, kernel_size=2, stride=2, padding=0)", "gen_cat_idx2", p2)
     p3 = ctx.src(UNET3D)
     t3, _ = pg.parse_file(p3)
     mult3, lo3, hi3 = _normunet_pad(t3, "NormUnetModel3d", ["w", "h", "z"], p3)
@@ -181,6 +319,7 @@ def generate(ctx):
     out += "Definition gen_nu3_start (n c : Z) : Z := gen_nu3_lo n.\nDefinition gen_nu3_stop (n c : Z) : Z := gen_nu3_mult n - gen_nu3_hi n.\n"
     f3 = pg.find_def(t3, "UnetModel3d.forward", p3)
     out += "Definition gen_cat_idx3 : list nat := [%s]%%nat.\n" % "; ".join(map(str, _cat_idx(f3, 3, p3, "UnetModel3d.forward")))
+    out += "Definition gen_unet3d_layers (L : nat) : list sop :=\n  %s.\n" % _unet_program(t3, "UnetModel3d", ["ConvBlock3D", "TransposeConvBlock3D"], "F.avg_pool3d(output, kernel_size=2, stride=2, padding=0)", "gen_cat_idx3", p3)
     src3 = ast.unparse(f3)
     if "F.avg_pool3d(output, kernel_size=2, stride=2, padding=0)" not in src3 or "output, inp_pad = pad_to_pow_of_2(input_data, self.num_pool_layers)" not in src3:
         _fail("UnetModel3d.forward: pooling / pad_to_pow_of_2 call outside subset", f3, p3)
